@@ -69,6 +69,9 @@ FIELD_TYPES = {
     ('Context', 'ghost_node_load'): TDict(STR, INT),
     ('Starter', 'ghost_node_requests'): TDict(STR, INT),
     ('ApplicationStatus', 'ghost_start_sequence_load'): INT,
+    # C13 handshake: the XML-RPC client of a peer (external class xmlrpc.client.ServerProxy) and its 'supvisors' namespace,
+    # whose methods are assumed externals (contracts/assumed_transport.py)
+    ('ServerProxy', 'supvisors'): TObj('SupvisorsRPC'),
 }
 
 # keys of payload records (Dict[str, Any] with literal keys) -> type
@@ -82,6 +85,8 @@ REC_KEYS = {
     'local_mtime': REAL, 'event_time': REAL, 'uptime': REAL, 'has_crashed': BOOL,
     # forced events
     'identifier': STR, 'forced': BOOL,
+    # reception time added by Context.on_process_state_event before the external publication
+    'event_mtime': REAL,
     # ticks
     'when': REAL, 'when_monotonic': REAL, 'sequence_counter': INT, 'stereotypes': TList(STR),
     'nick_identifier': STR, 'ip_address': STR,
@@ -93,6 +98,8 @@ REC_KEYS = {
     'period': TTuple([REAL, REAL]),
     # handshake notifications
     'authorization': INT,
+    # handshake XML-RPC answers: SupvisorsInstanceStatus.serial (statecode) and RPCInterface.get_strategies
+    'statecode': INT, 'auto-fencing': BOOL, 'starting': STR, 'conciliation': STR, 'supvisors_failure': STR,
     # state & modes publications (StateModes.serial / StateModes.update)
     'fsm_statecode': INT, 'fsm_statename': STR, 'degraded_mode': BOOL, 'discovery_mode': BOOL, 'master_identifier': STR,
     'starting_jobs': BOOL, 'stopping_jobs': BOOL, 'instance_states': TDict(STR, STR),
@@ -100,7 +107,8 @@ REC_KEYS = {
     'network': REC, 'machine_id': STR, 'fqdn': STR,
 }
 
-EXTERNAL_TYPES = {'Element': TObj('Element'), 'Match': TObj('Match'), 'Pattern': TObj('Pattern')}
+EXTERNAL_TYPES = {'Element': TObj('Element'), 'Match': TObj('Match'), 'Pattern': TObj('Pattern'),
+                  'ServerProxy': TObj('ServerProxy'), 'SupvisorsRPC': TObj('SupvisorsRPC')}
 
 # mutable class-level attributes that the code mutates or aliases: modelled as ONE heap object (C18, Appendix A7)
 CLASS_HEAP_ATTRS = {
